@@ -308,7 +308,7 @@ pub fn compare(exp: &Value, raw: &RawOutcome) -> Vec<Mismatch> {
         let pos = u64s(&e["sp"]["pos"]);
         let part = e["sp"]["part"].as_str().unwrap();
         let want = if pos.is_empty() { None } else { resolve(&raw.attrs, &pos, part) };
-        if part != "attr" && want != o.span {
+        if part != "attr" && part != "inside" && want != o.span {
             out.push(Mismatch { class: "model", why: format!("leaf `{}`: machine predicted span {:?} ({:?} {}), observed {:?}", o.text, want, pos, part, o.span) });
         }
     }
